@@ -471,7 +471,7 @@ pub fn compile(sc: &K17) -> KChild {
     for i in 0..sc.refused_first {
         connects.push(KConnect { outcome: failing(i as usize), segments: vec![], close_at_us: None, rst: false, eintr_reads: vec![] });
     }
-    let seg = |t: u64, hex: &str| KSegment { at_us: t, hex: wire::hex(format!("*{hex};\n").as_bytes()) };
+    let seg = |t: u64, hex: &str| KSegment { at_us: t, hex: wire::hex(format!("*{hex};\n").as_bytes()), repeat: 0 };
     if sc.sweep > 0 || sc.compass > 0 {
         let addr = [0x4b, 0x17, 0x01];
         let mut segments = vec![];
@@ -480,7 +480,7 @@ pub fn compile(sc: &K17) -> KChild {
         let mut nlines = 0usize;
         let mut flush = |text: &mut String, nlines: &mut usize, force: bool| {
             if *nlines >= 250 || (force && *nlines > 0) {
-                segments.push(KSegment { at_us: 30_000 + nseg * 1_000, hex: wire::hex(text.as_bytes()) });
+                segments.push(KSegment { at_us: 30_000 + nseg * 1_000, hex: wire::hex(text.as_bytes()), repeat: 0 });
                 text.clear();
                 *nlines = 0;
                 nseg += 1;
